@@ -46,6 +46,7 @@ class Arr:
     validof: frozenset = E  # boolean array that is the negation of these values' masks: true exactly at their valid cells
     hardmask: bool = False  # harden_mask() in force: item stores cannot uncover missing cells (A26)
     filledwith: object = None  # plain result of x.filled(v): (mask coverage of x, source text of v)
+    validM: frozenset = E  # boolean array that is false wherever these inputs are missing (a masked comparison filled with False)
 
 
 @dataclass(frozen=True)
@@ -57,6 +58,7 @@ class Scal:
     sym: str = None  # symbolic identity (e.g. "kw:NumberToConsider", "-kw:NumberToConsider")
     masked_const_possible: bool = False
     nonfinite: bool = False  # a python/numpy scalar quotient whose divisor depends on the data (may be 0: inf or nan, no mask)
+    rng: tuple = (None, None)  # (lo, hi) bounds established by min(max(x, lo), hi) with constant bounds
 
 
 @dataclass(frozen=True)
@@ -138,6 +140,11 @@ def scal_id(s):
 # =====================================================================================================
 # Part 2: interpreter — frames, statements
 # =====================================================================================================
+import os as _os
+
+_TRACE = bool(_os.environ.get("VERIF_ENGINE_TRACE"))  # debugging aid for the maintainer of the analyser: prints every local binding
+
+
 class Frame(object):
     def __init__(self, module, func, cls, env, depth=0):
         self.module = module
@@ -178,6 +185,7 @@ class Result(object):
         self.validates = []  # (line, arg value, node)
         self.truths = []
         self.super_calls = []  # (node, kwargs Kw snapshot, funckey)
+        self.fresh_executes = []  # (node, class, funckey): <Command subclass>(...).execute(...) evaluated on the spot
         self.scaldivs = []  # scalar / scalar divisions: (line, dividend, divisor, node, funckey)
         self.return_conds = {}  # id(return stmt) -> branch conditions under which it was reached
         self.maskstores = []  # (line, target Arr, value, node, funckey)
@@ -718,6 +726,7 @@ class Interp(object):
             )
         if isinstance(a, Scal) and isinstance(b, Scal):
             return Scal(D=a.D | b.D, Pg=a.Pg | b.Pg, dt=a.dt | b.dt, const=a.const if a.const == b.const else None,
+                        rng=(a.rng[0] if a.rng[0] == b.rng[0] else None, a.rng[1] if a.rng[1] == b.rng[1] else None),
                         sym=a.sym if a.sym == b.sym else ("%s|%s" % tuple(sorted([str(scal_id(a)), str(scal_id(b))]))))
         if isinstance(a, Kw) and isinstance(b, Kw):
             ks = set(a.d) | set(b.d)
@@ -786,7 +795,7 @@ class Interp(object):
             if it.what in ("arrs", "masks"):
                 return self.part_elem(it)
             if it.what == "nums":
-                return Scal(sym="elem(%s)" % ",".join(it.srcs))
+                return Scal(sym="elem(%s)" % ",".join(it.srcs), rng=it.elem.rng if isinstance(it.elem, Scal) else (None, None))
             if it.what == "pairs":
                 return Lst("mixed", items=(Scal(sym="raw"), Scal(sym="normal")))
             if it.what == "zip":
@@ -818,6 +827,9 @@ class Interp(object):
     def assign(self, t, v, fr, stmt):
         env = fr.env
         if isinstance(t, ast.Name):
+            if _TRACE:
+                import sys as _sys
+                _sys.stderr.write("TRACE %s:%s %s = %r\n" % (getattr(fr.func, "qualname", "?"), getattr(stmt, "lineno", "?"), t.id, v))
             env[t.id] = v
         elif isinstance(t, (ast.Tuple, ast.List)):
             if isinstance(v, Lst) and v.items is not None and len(v.items) == len(t.elts):
@@ -863,7 +875,7 @@ class Interp(object):
                     pc = v.Pc
                 else:
                     cov, const, pc = E, True, E
-                new = replace(base, M=cov, kind="masked", constmask=const, Pc=base.Pc | pc)
+                new = replace(base, M=cov, kind="masked", constmask=const, Pc=base.Pc | pc, layermask=bool(isinstance(v, Arr) and v.layermask))
                 self.rebind(t.value, base, new, fr)
                 return
             if isinstance(base, Arr):
@@ -914,6 +926,14 @@ class Interp(object):
             # A27: `x[idx] = numpy.ma.masked` only marks cells missing (data untouched).  With the mask of y as the index, x is
             # missing wherever y is from then on
             gained = idx.M if (isinstance(idx, Arr) and idx.isbool and idx.maskof) else E
+            if isinstance(idx, Lst) and idx.items is not None and len(idx.items) == 2 and isinstance(idx.items[0], Other) and idx.items[0].tag == "slice" and idx.items[0].info == (None, None) \
+                    and isinstance(idx.items[1], Arr) and idx.items[1].isbool and idx.items[1].kind == "plain" and idx.items[1].shape == "same" and not idx.items[1].layermask and base.shape == "stacked":
+                # stack[:, m] = masked with m a cell mask (true wherever the inputs of m.M are missing): every layer becomes
+                # missing there, so the layers share those missing cells from then on
+                m_ = idx.items[1]
+                if base.M <= m_.M:
+                    return replace(base, M=base.M | m_.M, layermask=False)
+                return base
             return replace(base, M=base.M | gained)
         D, Pc, Pg = base.D, base.Pc, base.Pg
         if isinstance(idx, Arr) and idx.isbool:
@@ -929,6 +949,8 @@ class Interp(object):
             elif op in ("Lt", "LtE"):
                 lo = scal_id(v)
             rng = (lo, hi)
+        if isinstance(v, Scal) and rng == (None, None) and base.rng != (None, None) and v.rng == base.rng and None not in v.rng:
+            rng = base.rng  # a number already within the array's bounds stored into it
         # write under the array's own mask into its data view: touches hidden cells only
         if base.dataof and isinstance(idx, Arr) and idx.maskof and idx.maskof & base.dataof:
             hidden_only = True
@@ -959,7 +981,11 @@ class Interp(object):
             # A9 (amended): a store of an unmasked value clears the (soft) mask at the selected cells.  Cells whose *index*
             # entry is masked keep their mask, so coverage survives only for inputs whose mask the index itself carries.
             vM = v.M if isinstance(v, Arr) and v.kind == "masked" else E
-            if isinstance(idx, Arr) and idx.isbool and idx.kind == "masked":
+            ix_ = idx.info if isinstance(idx, Other) and idx.tag == "index" and isinstance(idx.info, Arr) else idx
+            if isinstance(ix_, Arr) and ix_.isbool and ix_.validM:
+                # the selection leaves out every cell missing in those inputs: their missing cells stay missing in the target
+                M = base.M & (ix_.validM | vM | (ix_.M if ix_.kind == "masked" else E))
+            elif isinstance(idx, Arr) and idx.isbool and idx.kind == "masked":
                 M = base.M & (idx.M | vM)
             elif isinstance(idx, Other) and idx.tag == "slice" and idx.info == (None, None) and isinstance(v, Arr) and v.kind == "masked":
                 M = v.M
@@ -1319,7 +1345,7 @@ class ArrayInterp(Interp):
         if isinstance(v, Scal):
             D = v.D
             Pg = v.Pg
-            return Lst("nums", srcs=("derived",) + tuple(getattr(it, "srcs", ())), elem=Scal(D=D, Pg=Pg, dt=v.dt))
+            return Lst("nums", srcs=("derived",) + tuple(getattr(it, "srcs", ())), elem=Scal(D=D, Pg=Pg, dt=v.dt, rng=v.rng, sym=v.sym if (v.sym or "").startswith("clamped(") else None))
         return Lst("opaque")
 
     # ---------------------------------------------------------------- attributes
@@ -1341,7 +1367,11 @@ class ArrayInterp(Interp):
             if a == "data":
                 return replace(base, kind="plain", M=E, Pc=base.Pc | base.D, rng=(None, None), dataof=base.alias | base.dataof, maskof=E, cmp=None)
             if a == "mask":
-                return Arr(kind="plain", isbool=True, alias=base.alias, M=base.M, D=E, shape=base.shape, dt=B_, maskof=base.alias | base.dataof, constmask=base.constmask)
+                return Arr(kind="plain", isbool=True, alias=base.alias, M=base.M, D=E, shape=base.shape, dt=B_, maskof=base.alias | base.dataof, constmask=base.constmask, layermask=base.layermask)
+            if a == "flags":
+                # contiguity / ownership / writability: what ravel(), reshape() or a view does then depends on how the array
+                # happens to be stored, which no abstract value here describes
+                self.unsupported("a decision on the storage layout of an array (`%s`)" % _src(e), e, fr)
             if a == "shape":
                 return Lst("shape", srcs=(base.shape,))
             if a in ("dtype",):
@@ -1684,14 +1714,16 @@ class ArrayInterp(Interp):
                 ung = ung | {divisor.sel}
         cmp_ = None
         validof_ = E
+        validm_ = E
         if isbool and isinstance(op, ast.BitOr) and isinstance(b, Arr) and b.isbool and (a.cmp is None) != (b.cmp is None):
             cmp_ = a.cmp if a.cmp is not None else b.cmp  # `mask | (data == v)`: true at least where the comparison holds
         if isbool and isinstance(op, ast.BitAnd) and isinstance(b, Arr) and b.isbool:
             # `valid & (data > hi)`: true only at valid cells, and only where the comparison holds
             validof_ = a.validof | b.validof
+            validm_ = a.validM | b.validM
             if (a.cmp is None) != (b.cmp is None):
                 cmp_ = a.cmp if a.cmp is not None else b.cmp
-        return Arr(cmp=cmp_, validof=validof_, unguarded=ung, kind=kind, isbool=isbool, alias=a.alias if inplace else self.S(node), M=M, D=a.D | bD, Pc=Pc, Pg=Pg, shape=shape, dt=dt,
+        return Arr(cmp=cmp_, validof=validof_, validM=validm_, unguarded=ung, kind=kind, isbool=isbool, alias=a.alias if inplace else self.S(node), M=M, D=a.D | bD, Pc=Pc, Pg=Pg, shape=shape, dt=dt,
                    dtprov=a.dtprov if inplace else a.dtprov | getattr(b, "dtprov", E), rng=(None, None), sel=a.sel if not isinstance(b, Arr) else (a.sel, b.sel) if (a.sel or b.sel) else None,
                    sorted0=False, filearr=a.filearr, maskof=a.maskof if inplace else E, dataof=a.dataof if inplace else E,
                    constmask=a.constmask and (not isinstance(b, Arr) or b.constmask))
@@ -1708,6 +1740,20 @@ class ArrayInterp(Interp):
         # super(K, self).execute(**kw)
         if isinstance(f, ast.Attribute) and isinstance(f.value, ast.Call) and isinstance(f.value.func, ast.Name) and f.value.func.id == "super":
             return self.call_super(e, fr)
+        # <Command subclass>(...).execute(...): a temporary command of another class evaluated on the spot (it is not in the
+        # program's table; its body runs with the keyword arguments given here)
+        if isinstance(f, ast.Attribute) and f.attr == "execute" and isinstance(f.value, ast.Call) and isinstance(f.value.func, (ast.Name, ast.Attribute)):
+            rc = self.idx.resolve(fr.module, f.value.func, fr.func)
+            if rc and rc[0] == "class" and any(getattr(c_, "qual", None) == "mpilot.commands.Command" for c_ in self.idx.mro(rc[1])):
+                m = self.idx.find_method(rc[1], "execute")
+                if m is not None and not e.args:
+                    # the constructor arguments only identify the temporary (name, arguments, program, line): they are handed on, not
+                    # computed with - the body below sees none of them
+                    for a_ in list(f.value.args) + [k_.value for k_ in f.value.keywords]:
+                        if not (isinstance(a_, ast.Attribute) and isinstance(a_.value, ast.Name) and isinstance(fr.env.get(a_.value.id), Other) and fr.env[a_.value.id].tag == "self"):
+                            self.ev(a_, fr)
+                    self.res.fresh_executes.append((e, rc[1], self.fkey(fr)))
+                    return self.run_execute(m, e, fr)
         if qn == "builtins.next" and e.args and isinstance(e.args[0], ast.GeneratorExp) and len(e.args[0].generators) == 1 and isinstance(e.args[0].generators[0].target, ast.Name) \
                 and isinstance(e.args[0].elt, ast.Name) and e.args[0].elt.id == e.args[0].generators[0].target.id:
             # `next((a for a in xs if test(a)), default)`: a probe for the first element with some property; the value is one of the
@@ -1918,6 +1964,10 @@ class ArrayInterp(Interp):
         if meth != "execute":
             return self.inline(m, concrete, A, K, e, fr, bind_self=True)
         # delegation: the base body runs on the same instance with the forwarded kwargs
+        return self.run_execute(m, e, fr)
+
+    def run_execute(self, m, e, fr):
+        """the body of execute method `m` on the keyword arguments of call `e`"""
         if fr.depth >= self.MAX_DEPTH:
             self.unsupported("delegation deeper than %d" % self.MAX_DEPTH, e, fr)
         kw = Kw()
@@ -2081,7 +2131,9 @@ class ArrayInterp(Interp):
             return replace(base, kind="plain", M=E, shape="flat", alias=self.S(e), maskof=E, dataof=E)
         if meth == "filled":
             fv_node = e.args[0] if e.args else next((k.value for k in e.keywords if k.arg == "fill_value"), None)
-            return replace(base, kind="plain", M=E, Pc=base.Pc, alias=self.S(e), maskof=E, dataof=E, D=base.D,
+            fv_val = self.ev(fv_node, fr) if fv_node is not None else None
+            vm = base.M if (base.kind == "masked" and base.isbool and isinstance(fv_val, Other) and fv_val.tag == "bool" and fv_val.info is False) else E
+            return replace(base, kind="plain", M=E, Pc=base.Pc, alias=self.S(e), maskof=E, dataof=E, D=base.D, validM=base.validM | vm,
                            filledwith=(base.M if base.kind == "masked" else E, _src(fv_node) if fv_node is not None else None))
         if meth == "clip":
             lo = A[0] if A else K.get("min")
@@ -2139,7 +2191,13 @@ class ArrayInterp(Interp):
 
     def axis_reduce(self, base, ax, e, fr, what):
         ax0 = isinstance(ax, Scal) and ax.const == 0
-        self.res.layer_reduces.append((e, base.sel, what, self.fkey(fr)))
+        if not (base.isbool and base.kind == "plain" and base.maskof):
+            self.res.layer_reduces.append((e, base.sel, what, self.fkey(fr)))  # (a reduction of the masks combines no data layers)
+        if base.shape == "stacked" and ax0 and base.isbool and base.kind == "plain" and base.maskof and what in ("any", "all", "max", "min", "sum"):
+            # the masks of the layers combined along the layer axis: any/max/sum>0 is the union (covers every layer's missing
+            # cells), all/min the intersection (covers none for certain when the layers differ)
+            union = what in ("any", "max", "sum")
+            return replace(base, shape="same", alias=self.S(e), maskof=E, dataof=E, layermask=False, M=base.M if (union or not base.layermask) else E, dt=B_ if what != "sum" else I_, isbool=what != "sum")
         if base.shape == "stacked" and ax0:
             # A12: with one mask per layer a layer-axis reduction skips masked layers, so a cell missing in only some
             # inputs comes out present; only a mask shared by all layers (the broadcast union) keeps coverage
@@ -2255,7 +2313,8 @@ class ArrayInterp(Interp):
             if "full" in qn and len(A) > 1 and isinstance(A[1], Scal):
                 D, Pg = A[1].D, A[1].Pg
             masked = ".ma." in qn
-            return Arr(kind="masked" if masked else "plain", alias=S(), shape=shp, dt=dt, dtprov=dtprov, D=D, Pg=Pg, constmask=masked)
+            rng0 = A[1].rng if ("full" in qn and len(A) > 1 and isinstance(A[1], Scal) and "_like" not in qn) else (None, None)
+            return Arr(kind="masked" if masked else "plain", alias=S(), shape=shp, dt=dt, dtprov=dtprov, D=D, Pg=Pg, constmask=masked, rng=rng0)
         if qn in ("numpy.ma.masked_values", "numpy.ma.masked_equal", "numpy.ma.masked_where", "numpy.ma.masked_object", "numpy.ma.masked_invalid",
                   "numpy.ma.masked_less", "numpy.ma.masked_greater", "numpy.ma.masked_less_equal", "numpy.ma.masked_greater_equal", "numpy.ma.masked_not_equal",
                   "numpy.ma.masked_inside", "numpy.ma.masked_outside"):
@@ -2287,9 +2346,13 @@ class ArrayInterp(Interp):
             return out
         if qn in ("numpy.ma.getmaskarray", "numpy.ma.getmask"):
             if isinstance(a0, Arr):
-                return Arr(kind="plain", isbool=True, alias=S() if qn.endswith("getmaskarray") else a0.alias, M=a0.M, shape=a0.shape, dt=B_, maskof=a0.alias, constmask=a0.constmask)
+                return Arr(kind="plain", isbool=True, alias=S() if qn.endswith("getmaskarray") else a0.alias, M=a0.M, shape=a0.shape, dt=B_, maskof=a0.alias, constmask=a0.constmask, layermask=a0.layermask)
             return Other("opaque")
         if qn in ("numpy.ma.getdata", "numpy.ma.filled"):
+            fv_ = K.get("fill_value", A[1] if len(A) > 1 else None)
+            if qn.endswith("filled") and isinstance(a0, Arr) and a0.kind == "masked" and a0.isbool and isinstance(fv_, Other) and fv_.tag == "bool" and fv_.info is False:
+                # a masked comparison filled with False: true only at cells that are present (and where the comparison holds)
+                return replace(a0, kind="plain", M=E, dataof=E, maskof=E, rng=(None, None), alias=S(), validM=a0.validM | a0.M)
             if isinstance(a0, Arr):
                 return replace(a0, kind="plain", M=E, Pc=a0.Pc | a0.D, dataof=a0.alias, maskof=E, rng=(None, None))
             return Other("opaque")
@@ -2457,7 +2520,14 @@ class ArrayInterp(Interp):
                 ax = K.get("axis", A[1] if len(A) > 1 else None)
                 if ax is None or (isinstance(ax, Other) and ax.tag == "none"):
                     return self.reduce_scalar(a0, meth, e, fr)
-                return self.axis_reduce(a0, ax, e, fr, meth)
+                out = self.axis_reduce(a0, ax, e, fr, meth)
+                w = K.get("weights", A[2] if len(A) > 2 and qn.endswith(".average") else None)
+                if qn.endswith(".average") and w is not None and not (isinstance(w, Other) and w.tag == "none") and isinstance(out, Arr):
+                    # weighted layer mean: sum(w_i * layer_i) / sum(w_i), divided as masked arrays in numpy.ma.average (A3)
+                    wD = w.D if isinstance(w, (Arr, Scal)) else (w.elem.D if isinstance(w, Lst) and isinstance(w.elem, Scal) else E)
+                    out = replace(out, D=out.D | wD)
+                    self.res.layer_reduces.append((e, a0.sel, "weighted-average" if qn.startswith("numpy.ma.") else "weighted-average-plain", self.fkey(fr)))
+                return out
             if isinstance(a0, Lst):
                 el = a0.elem if isinstance(a0.elem, Scal) else Scal()
                 return Scal(D=el.D, Pg=el.Pg)
@@ -2569,7 +2639,24 @@ class ArrayInterp(Interp):
                 if isinstance(x, Scal):
                     D |= x.D
                     Pg |= x.Pg
-            return Scal(D=D, Pg=Pg)
+            rng = (None, None)
+            if short in ("min", "max") and len(A) == 2 and all(isinstance(x, Scal) for x in A) and not K:
+                # min(x, c) is at most c and keeps x's lower bound when c is not below it; max(x, c) likewise
+                consts = [x for x in A if x.const is not None]
+                others = [x for x in A if x.const is None]
+                if len(consts) == 1 and len(others) == 1:
+                    c, o = consts[0], others[0]
+                    lo, hi = o.rng
+                    if short == "min":
+                        keep_lo = lo if (lo is not None and lo[0] == "c" and lo[1] <= c.const) else None
+                        rng = (keep_lo, ("c", c.const))
+                    else:
+                        keep_hi = hi if (hi is not None and hi[0] == "c" and hi[1] >= c.const) else None
+                        rng = (("c", c.const), keep_hi)
+                    if o.sym:
+                        sym_ = o.sym if o.sym.startswith("clamped(") else "clamped(%s)" % o.sym
+                        return Scal(D=D, Pg=Pg, rng=rng, sym=sym_)
+            return Scal(D=D, Pg=Pg, rng=rng)
         if qn == "functools.reduce":
             return self.call_reduce(e, A, fr)
         if short == "sorted":
@@ -2712,7 +2799,8 @@ class ArrayInterp(Interp):
             copyv = K.get("copy")
             shares = asarr or not (isinstance(copyv, Other) and copyv.info is True)
             return replace(a0, kind="masked", M=cov, shape=shape, alias=(a0.alias | a0.dataof | S) if shares else S, dt=dt or a0.dt,
-                           dtprov=a0.dtprov if dt is None else E, constmask=const, maskof=E, dataof=E, rng=(None, None), Pc=pc, isbool=False if a0.isbool and dt else a0.isbool,
+                           dtprov=a0.dtprov if dt is None else E, constmask=const, maskof=E, dataof=E, Pc=pc, isbool=False if a0.isbool and dt else a0.isbool,
+                           rng=a0.rng if (a0.kind == "plain" and not a0.dataof and dt is None) else (None, None),  # bounds of a plain array hold for every cell; a data view may expose unbounded hidden cells
                            maskalias=malias if isinstance(mask, Arr) else (a0.maskalias if a0.kind == "masked" and shares else E))
         if isinstance(a0, Lst) and a0.what == "arrs" and a0.L:
             el = self.part_elem(a0)
